@@ -72,7 +72,7 @@ class LibsModel:
                 v = args[0] if args else TOP
                 lab = args[1] if len(args) > 1 else kwargs.get('unit')
                 interp.emit('float_with_unit', node, value=v, label=cval(lab) if (lab is not None and has_const(lab)) else None)
-                return v.only('geo', 'mono', 'deps', 'prov').w(ty='FloatWithUnit', unit_label=cval(lab) if (lab is not None and has_const(lab)) else None,
+                return v.only('geo', 'mono', 'deps', 'prov', 'mono_unknown').w(ty='FloatWithUnit', unit_label=cval(lab) if (lab is not None and has_const(lab)) else None,
                                                         deps=d)
             if last == 'Unit':
                 return AV(ty='Unit')
